@@ -168,7 +168,8 @@ class Gen:
         if r.chance(0.3): r.shuffle(a)
         content = None
         if kind == 'text' or (kind in ('rect', 'circle') and r.chance(0.08)):
-            content = r.choice(['plain', 'a &amp; b', '<![CDATA[x < y]]>', 'two\nlines', '', ' $v ', 'x &lt;- y', '<![CDATA[a &amp; b]]>'])
+            content = r.choice(['plain', 'a &amp; b', '<![CDATA[x < y]]>', 'two\nlines', '', ' $v ', 'x &lt;- y', '<![CDATA[a &amp; b]]>',
+                                '10&nbsp;kg', '45&deg; &amp; more', 'a & b', '&#65;&#x42;'])
         if eid: self.ids.append(eid)
         return self.el(kind, a, content)
 
